@@ -31,6 +31,10 @@ NOT_DECIDED = ['sampler-reported MAP for MultiNest/PolyChord', 'tie order in com
 
 def is_q(fl, rf):
     at = atom_of(fl, rf)
+    # the three levels as a literal, or as a literal list kept in a local / converted to an array
+    while at is not None and at.head in ('call', 'list') and len(at.args) == 1 and isinstance(at.args[0], RF) and \
+            (at.head == 'list' or (at.extra and at.extra[0] in ('fn:list', 'fn:tuple', 'fn:array', 'fn:asarray'))):
+        at = atom_of(fl, at.args[0])
     if at is None or at.head != 'tuple' or len(at.args) != 3:
         return False
     return [float(a.const()) if a.const() is not None else None for a in at.args] == [0.16, 0.5, 0.84]
@@ -542,6 +546,12 @@ def generate_solution(ix, R):
             why.append('compute_derived_trace is not called once per solution')
         else:
             c0 = cd[0]
+            from sa.helpers import pos_args
+            import types as _types
+            _pa, _kd = pos_args(fl, c0)        # compute_derived_trace(solution=s) is compute_derived_trace(s)
+            if _kd:
+                raise AnalysisError('compute_derived_trace is called with keyword arguments %s' % sorted(_kd))
+            c0 = _types.SimpleNamespace(args=_pa, guards=c0.guards, loops=c0.loops, node=c0.node)
             lic = spec(fl, 'len(self.derived_names) > 0')
             bad = [g for g in c0.guards if not guard_is(fl, g, lic, True)]
             it2 = fl.tab.atom('elem', (c0.loops[0].iter_rf[0], c0.loops[0].index))
